@@ -248,6 +248,8 @@ def make_sim(d, fail_at=(), mode="before"):
         kw = dict(net_cls=StochasticNetwork, net_kw={"early_departure": bool(d.get("early"))})
         random.seed(d.get("np_seed", 0))
     sim, evs = build.build_sim(d, scheduler=fl, store_schedule_history=bool(d.get("hist")), **kw)
+    if getattr(inner, "sd", None) is not None:
+        inner.sim = sim  # the user built both (the scripted scheduler looks at public attributes of its simulator)
     return sim, fl
 
 
